@@ -4,19 +4,23 @@ usage: confirm_seed.py <srcdir with patch.diff demo.sh README.md> <name> <proper
 import json, os, shutil, subprocess, sys, time
 
 src, name, pid = sys.argv[1], sys.argv[2], sys.argv[3]
-WT = "/tmp/confirm_wt_%s" % name
+PRE = os.environ.get("CONFIRM_WT")          # an existing, already built scratch worktree (kept; only reset to HEAD)
+WT = PRE or "/tmp/confirm_wt_%s" % name
 def sh(cmd, **kw):
     r = subprocess.run(cmd, shell=True, stdout=subprocess.PIPE, stderr=subprocess.STDOUT, text=True, **kw)
     return r.returncode, r.stdout
-subprocess.run("git -C /repo worktree remove --force %s 2>/dev/null; rm -rf %s" % (WT, WT), shell=True)
-rc, o = sh("git -C /repo worktree add -q --detach %s HEAD" % WT); assert rc == 0, o
+if PRE:
+    rc, o = sh("git -C %s checkout -- . && git -C %s status --short | grep -v '^??'" % (WT, WT)); assert o.strip() == "", o
+else:
+    subprocess.run("git -C /repo worktree remove --force %s 2>/dev/null; rm -rf %s" % (WT, WT), shell=True)
+    rc, o = sh("git -C /repo worktree add -q --detach %s HEAD" % WT); assert rc == 0, o
 meta = {"property": pid, "name": name, "base_commit": subprocess.run("git -C /repo rev-parse HEAD", shell=True, stdout=subprocess.PIPE, text=True).stdout.strip(), "ran": []}
 try:
     cfg = "cmake -G Ninja -S %s -B %s/_build -DBUILD_TESTING=ON -DCMAKE_BUILD_TYPE=RelWithDebInfo -DCMAKE_CXX_FLAGS=-Wno-error -DCMAKE_C_FLAGS=-Wno-error >/dev/null" % (WT, WT)
-    rc, o = sh(cfg + " && cmake --build %s/_build -j16 >/dev/null" % WT); assert rc == 0, o[-2000:]
+    rc, o = sh(cfg + " && cmake --build %s/_build -j8 >/dev/null" % WT); assert rc == 0, o[-2000:]
     rc0, o0 = sh("sh %s/demo.sh %s" % (src, WT)); meta["ran"].append({"cmd": "demo.sh on unmodified tree", "rc": rc0})
     rc, o = sh("git -C %s apply %s/patch.diff" % (WT, src)); assert rc == 0, o
-    rc, o = sh("cmake --build %s/_build -j16 2>&1 | tail -3" % WT); meta["ran"].append({"cmd": "build modified tree", "rc": rc}); assert rc == 0, o
+    rc, o = sh("cmake --build %s/_build -j8 2>&1 | tail -3" % WT); meta["ran"].append({"cmd": "build modified tree", "rc": rc}); assert rc == 0, o
     rct, ot = sh("ctest --test-dir %s/_build -j8 2>&1 | tail -3" % WT); meta["ran"].append({"cmd": "ctest on modified tree", "rc": rct, "tail": ot.strip()})
     rc1, o1 = sh("sh %s/demo.sh %s" % (src, WT)); meta["ran"].append({"cmd": "demo.sh on modified tree", "rc": rc1, "tail": o1[-300:]})
     ok = rc0 == 0 and rct == 0 and "100% tests passed" in ot and rc1 != 0
@@ -32,4 +36,7 @@ try:
         json.dump(meta, open(os.path.join(dst, "meta.json"), "w"), indent=1)
     print(name, "CONFIRMED" if ok else "NOT CONFIRMED", rc0, rct, rc1)
 finally:
-    subprocess.run("git -C /repo worktree remove --force %s; rm -rf %s" % (WT, WT), shell=True)
+    if PRE:
+        subprocess.run("git -C %s checkout -- . && cmake --build %s/_build -j8 >/dev/null 2>&1" % (WT, WT), shell=True)
+    else:
+        subprocess.run("git -C /repo worktree remove --force %s; rm -rf %s" % (WT, WT), shell=True)
